@@ -36,7 +36,9 @@ ASSUMPTIONS = [
     "the list model holds the include-defaults serialisation of each stored object (defaulted properties such as revoked=false are queryable)",
 ]
 TS_PROPS = {"created", "modified", "valid_from", "valid_until", "first_seen", "last_seen", "published", "first_observed", "last_observed", "seen",
-            "start_time", "stop_time", "stamped_at"}
+            "start_time", "stop_time", "stamped_at", "collected", "seen_at"}
+# an extension this process has no class for: its content stays a dictionary inside a library object, its timestamps stay text
+FOREIGN_EXT = "extension-definition--9c7a1e52-3b64-4d0f-8a21-5e6f7d8c9b0a"
 
 
 def setup(ctx):
@@ -67,6 +69,12 @@ def build_population(rng):
         if rng.random() < 0.3:
             o = gcustom.widget(g)
         base = tsor.text_us(o["modified"]) if "modified" in o else None
+        if ver == "2.1" and "extensions" not in o and o["type"] != "x-widget" and rng.random() < 0.4:
+            eus = V.instant_us(rng, 2015, 2022)
+            eus -= eus % rng.choice([1, 1000, 10 ** 6, 10 ** 6])
+            spell = lambda us: rng.choice([tsor.format_us(us, "any"), tsor.format_us(us, "millisecond", "min")])      # noqa: E731
+            o["extensions"] = {FOREIGN_EXT: {"extension_type": "property-extension", "collected": spell(eus), "detail": {"seen_at": spell(eus + rng.choice([0, 1000, 10 ** 6]))},
+                                             "stages": [{"seen_at": spell(eus)}, {"seen_at": spell(eus + 10 ** 6)}]}}
         nver = rng.choice([1, 1, 2, 3])
         for vi in range(nver):
             ov = dict(o)
@@ -152,7 +160,8 @@ PROPS = {
     "string": ["name", "description", "type", "id", "relationship_type", "created_by_ref", "source_ref", "identity_class", "pattern_type", "lang"],
     "int": ["confidence", "size"],
     "bool": ["revoked", "is_family", "enabled"],
-    "ts": ["created", "modified", "valid_from", "first_seen", "published", "seen", "stamped_at"],
+    "ts": ["created", "modified", "valid_from", "first_seen", "published", "seen", "stamped_at",
+           "extensions.%s.collected" % FOREIGN_EXT, "extensions.%s.detail.seen_at" % FOREIGN_EXT, "extensions.%s.stages.seen_at" % FOREIGN_EXT],
     "list": ["labels", "aliases", "object_marking_refs", "malware_types", "tags", "sectors", "object_refs", "goals"],
     "dotted": ["external_references.source_name", "external_references.external_id", "kill_chain_phases.phase_name",
                "kill_chain_phases.kill_chain_name", "external_references.hashes.MD5"],
